@@ -572,31 +572,34 @@ uint32_t gp_u32_to_title(uint32_t);
 void gp_str_to_upper(GPString* str)
 {
     GPArena* scratch = gp_scratch_arena();
+    void*const scratch_entry = gp_mem_alloc((GPAllocator*)scratch, 0); // rewind point
     GPArray(uint32_t) u32 = gp_utf8_to_utf32_new((GPAllocator*)scratch, *str);
     for (size_t i = 0; i < gp_arr_length(u32); i++)
         u32[i] = gp_u32_to_upper(u32[i]);
     gp_utf32_to_utf8(str, u32, gp_arr_length(u32));
-    gp_arena_rewind(scratch, gp_arr_allocation(u32));
+    gp_arena_rewind(scratch, scratch_entry);
 }
 
 void gp_str_to_lower(GPString* str)
 {
     GPArena* scratch = gp_scratch_arena();
+    void*const scratch_entry = gp_mem_alloc((GPAllocator*)scratch, 0); // rewind point
     GPArray(uint32_t) u32 = gp_utf8_to_utf32_new((GPAllocator*)scratch, *str);
     for (size_t i = 0; i < gp_arr_length(u32); i++)
         u32[i] = gp_u32_to_lower(u32[i]);
     gp_utf32_to_utf8(str, u32, gp_arr_length(u32));
-    gp_arena_rewind(scratch, gp_arr_allocation(u32));
+    gp_arena_rewind(scratch, scratch_entry);
 }
 
 void gp_str_to_title(GPString* str)
 {
     GPArena* scratch = gp_scratch_arena();
+    void*const scratch_entry = gp_mem_alloc((GPAllocator*)scratch, 0); // rewind point
     GPArray(uint32_t) u32 = gp_utf8_to_utf32_new((GPAllocator*)scratch, *str);
     for (size_t i = 0; i < gp_arr_length(u32); i++)
         u32[i] = gp_u32_to_title(u32[i]);
     gp_utf32_to_utf8(str, u32, gp_arr_length(u32));
-    gp_arena_rewind(scratch, gp_arr_allocation(u32));
+    gp_arena_rewind(scratch, scratch_entry);
 }
 
 static size_t gp_str_find_invalid(
